@@ -107,16 +107,16 @@ impl BlobStore for MemoryTier {
     }
 
     fn put_verified(&mut self, expected: BlobHash, bytes: &[u8]) -> Result<(), CasError> {
-        // Fast path: blob already stored — skip hashing entirely.
-        if self.blobs.contains_key(&expected) {
-            return Ok(());
-        }
+        // Always verify: the contract is "rejects if BLAKE3(bytes) != expected",
+        // also when `expected` happens to be stored already.
         let computed = blob_hash(bytes);
         if computed != expected {
             return Err(CasError::HashMismatch { expected, computed });
         }
-        self.byte_count += bytes.len();
-        self.blobs.insert(computed, Arc::from(bytes));
+        if let std::collections::hash_map::Entry::Vacant(e) = self.blobs.entry(computed) {
+            self.byte_count += bytes.len();
+            e.insert(Arc::from(bytes));
+        }
         Ok(())
     }
 
